@@ -352,3 +352,26 @@ func H_C10errseed(s, n int) {
 	}
 	CheckFailure(verif.TokenSeq(vocab, slots))
 }
+
+// TabPrograms are failing programs whose "%" gap is filled with arbitrary spaces, tabs and newlines.
+var TabPrograms = []string{
+	"foo%| where%)",
+	"foo |%where x ==%)",
+	"T%| take%1.5",
+	"T | where%f(%",
+	"T%| project a = not(%1, 2)",
+}
+
+// H_C10tab: error positions under arbitrary space/tab/newline layout (tab stops every 8 columns).
+func H_C10tab(p int) {
+	tmpl := TabPrograms[p]
+	src := ""
+	for i := 0; i < len(tmpl); i++ {
+		if tmpl[i] == '%' {
+			src += verif.BytesIn(2, " \t\n")
+		} else {
+			src += string([]byte{tmpl[i]})
+		}
+	}
+	CheckFailure(src)
+}
